@@ -1142,6 +1142,8 @@ impl Task {
                 });
 
                 if is_updated {
+                    // the holder changed without an event of its own: keep its stored row current
+                    let _ = self.runtime.cache().upsert(t);
                     break;
                 }
             }
